@@ -131,10 +131,12 @@ func (h *Handler) HandleIQ(iq stanza.IQ, t xmlstream.TokenReadEncoder, start *xm
 		if err != nil {
 			return err
 		}
-		err = conn.closeNoNotify(t)
-		if err != nil {
-			return err
-		}
+		// An error of flushing what was still buffered (for instance the sticky
+		// error of a packet that the peer refused earlier) has been reported to
+		// the writer and is not a reason to end the XMPP session: the peer's close
+		// is answered all the same.
+		/* #nosec */
+		_ = conn.closeNoNotify(t)
 		_, err = xmlstream.Copy(t, iq.Result(nil))
 		return err
 	case "data":
